@@ -155,6 +155,71 @@ func scenarioX(arity, n int, bound int, exit string, twice bool) schk.Scenario {
 	}
 }
 
+// chainScenario: `threads` threads, each running a chain of `depth` nested Do calls over its OWN fresh
+// Once1 values (the action passed to value k calls Do on value k+1 - an initialisation dependency
+// chain). Distinct Once values are independent objects: every action must run exactly once and every Do
+// must return its own action's result, under every schedule. With `depth` values held "inside Do" at the
+// same time, anything the implementation shares between Once values (a lock table, a pool) is shared
+// between two of them in every execution, whatever their addresses.
+func chainScenario(threads, depth, bound int) schk.Scenario {
+	type crec struct {
+		ran  [][]int
+		got  [][]int
+		done []bool
+	}
+	return schk.Scenario{
+		Name: fmt.Sprintf("Once1/nested-chain/%d-threads-x-%d-values", threads, depth), Bound: bound, RaceBound: min(bound, 1), MaxSteps: 40000 + 40*threads*depth,
+		Body: func(s *vrt.Sched) any {
+			r := &crec{done: make([]bool, threads)}
+			for t := 0; t < threads; t++ {
+				r.ran = append(r.ran, make([]int, depth))
+				r.got = append(r.got, make([]int, depth))
+			}
+			for t := 0; t < threads; t++ {
+				t := t
+				objs := make([]sync2.Once1[int], depth)
+				var call func(k int) int
+				call = func(k int) int {
+					v := objs[k].Do(func() int {
+						r.ran[t][k]++
+						if k+1 < depth {
+							call(k + 1)
+						}
+						return 1000*t + k
+					})
+					r.got[t][k] = v
+					return v
+				}
+				s.Spawn(fmt.Sprint("chain", t), func() {
+					call(0)
+					r.done[t] = true
+				})
+			}
+			return r
+		},
+		Check: func(x *vrt.Exec, obs any) (*schk.Fail, string) {
+			r := obs.(*crec)
+			if x.Panic != "" || x.Deadlock {
+				return nil, "abnormal"
+			}
+			for t := range r.ran {
+				if !r.done[t] {
+					return schk.Failf("chain-not-finished", "thread %d did not finish its chain", t), ""
+				}
+				for k := range r.ran[t] {
+					if r.ran[t][k] != 1 {
+						return schk.Failf("not-exactly-once", "the action of Once value %d of thread %d ran %d times", k, t, r.ran[t][k]), ""
+					}
+					if r.got[t][k] != 1000*t+k {
+						return schk.Failf("wrong-result", "Do on Once value %d of thread %d returned %d, its action returned %d", k, t, r.got[t][k], 1000*t+k), ""
+					}
+				}
+			}
+			return nil, "ok"
+		},
+	}
+}
+
 func main() {
 	r := ev.Start("C17")
 	var scs []schk.Scenario
@@ -172,8 +237,13 @@ func main() {
 		}
 		scs = append(scs, scenarioX(arity, 2, -1, "", true), scenarioX(arity, 3, ev.Pick(r, 2, -1), "", true))
 	}
+	// many Once values in use at the same time (state shared between distinct values)
+	scs = append(scs, chainScenario(1, 70, -1), chainScenario(1, 300, -1), chainScenario(2, 70, ev.Pick(r, 1, 2)), chainScenario(2, 2, -1), chainScenario(3, 2, 2))
+	if r.Thorough() {
+		scs = append(scs, chainScenario(1, 5000, -1), chainScenario(2, 300, 1), chainScenario(3, 70, 1))
+	}
 	schk.Main(r, scs, ev.Pick(r, 40*time.Second, 600*time.Second), func(r *ev.Run) {
-		r.Set("rule", "controlled scheduler over the instrumented sync2 package: 2, 3 (thorough: 4 and 5 without a preemption bound, 6 with bound 3) concurrent Do callers on one OnceN value, each passing its own function (distinct results, invocation counter, two internal scheduling points, completion flag written last), plus a caller after quiescence; variants where caller 0's action leaves through runtime.Goexit or a panic, and where every caller calls Do twice in a row; every interleaving of the visible operations (atomic loads/stores, mutex operations of the Once, the action's internal points) within the stated preemption bound, or all of them; the same scenarios run under the race detector inside every explored schedule")
+		r.Set("rule", "controlled scheduler over the instrumented sync2 package: 2, 3 (thorough: 4 and 5 without a preemption bound, 6 with bound 3) concurrent Do callers on one OnceN value, each passing its own function (distinct results, invocation counter, two internal scheduling points, completion flag written last), plus a caller after quiescence; variants where caller 0's action leaves through runtime.Goexit or a panic, and where every caller calls Do twice in a row; nested chains of Do calls over up to 300 (thorough 5000) distinct Once values per thread, 1-3 threads; every interleaving of the visible operations (atomic loads/stores, mutex operations of the Once, the action's internal points) within the stated preemption bound, or all of them; the same scenarios run under the race detector inside every explored schedule")
 		r.Assume("sync.Once is modelled by the standard algorithm (atomic done flag + mutex) re-expressed over the instrumented primitives")
 	})
 }
